@@ -468,6 +468,9 @@ type Divergence struct {
 	C      string
 	Interp string
 	CText  []string // the C trace of the diverging call
+	// Problem is set when the C driver did not finish the traced history (it
+	// died: sanitizer report, signal, watchdog); the text is its stderr head.
+	Problem string
 	IText  []string // the interpreter's trace of it
 }
 
@@ -523,6 +526,9 @@ func (b *Batch) Diagnose(cfg Config, prog int, calls []interp.CallSpec) (div *Di
 	if div == nil && prob != "" {
 		return nil, "C driver in trace mode: " + prob
 	}
+	if div != nil {
+		div.Problem = prob
+	}
 	return div, ""
 }
 
@@ -532,7 +538,7 @@ func (b *Batch) Diagnose(cfg Config, prog int, calls []interp.CallSpec) (div *Di
 func Constructs(src string) []string {
 	vocab := []string{"~mod+", "~mod-", "~mod*", "~mod<<", "~sat+", "~sat-", "<<=", ">>=", "+=", "-=", "*=", "&=", "|=", "^=", "~mod+=", "~sat+=",
 		" << ", " >> ", " / ", " % ", " * ", " & ", " | ", " ^ ", " as ", ".min(", ".max(", ".low_bits(", ".high_bits(",
-		"while", "continue", "break", "io_limit", "io_bind", "choose", "yield?", "read_u8?", "read_u16le", "read_u16be", "read_u32", "skip_u32?", "write_u8?",
+		"while", "iterate", "continue", "break", "io_limit", "io_bind", "choose", "yield?", "read_u8?", "read_u16le", "read_u16be", "read_u32", "skip_u32?", "write_u8?",
 		"peek_u", "skip_u32_fast!", "write_u8_fast!", "write_u16le_fast!", "undo_byte!", "limited_copy_u32", "copy_from_slice!", "bulk_memset!", ".length()",
 		"this.sub?", "=?", "[.. ", " .. ", " ..]", "slice base.u8"}
 	var out []string
